@@ -6,6 +6,7 @@ import json
 import os
 import sys
 import tempfile
+import time
 import shutil
 
 sys.dont_write_bytecode = True
@@ -72,8 +73,13 @@ def main():
                 except Exception as exc:     # noqa: BLE001
                     return f'EXC {type(exc).__name__}: {exc}'
             # history items rebuild a database on every execution: a tenth of the execution cap is plenty for
-            # their few order choices (their purpose is the warm / cold comparison of the plain pass)
-            st = e4.explore(safe, bound, max_exec // 10 if name.startswith('hist:') else max_exec)
+            # their few order choices (their purpose is the warm / cold comparison of the plain pass); the
+            # two-lexicon inferred-synset item costs 0.1 s per execution and has hundreds of choice points - at
+            # bound 2 it alone ran for two hours, so it gets the same reduced cap (reported under items_capped)
+            t_item = time.time()
+            heavy = name.startswith(('hist:', 'inf:two-queried-lexicons'))
+            st = e4.explore(safe, bound, max_exec // 10 if heavy else max_exec)
+            st['wall'] = round(time.time() - t_item, 1)
             first = safe()        # default order again, scheduler inactive
             outs = st.pop('outcomes')
             res[name] = dict(st, n_outcomes=len(outs),
